@@ -550,6 +550,18 @@ class Resolver:
                 at = self.attr_types(cls)
                 if attr in at:
                     return at[attr]
+                # (lazy) property returning a stage object
+                pm = prog.lookup_method(cls, e.attr)
+                if pm is not None and "property" in pm.decorators and not getattr(self, "_in_prop", False):
+                    self._in_prop = True
+                    try:
+                        for r in own_nodes(pm.node):
+                            if isinstance(r, ast.Return) and r.value is not None:
+                                ty = self.expr_type(r.value, pm, self.local_types(pm))
+                                if ty:
+                                    return ty
+                    finally:
+                        self._in_prop = False
                 for c in prog.mro(cls):
                     if e.attr in c.class_attrs:
                         return self.expr_type(c.class_attrs[e.attr], f, {})
